@@ -9,6 +9,8 @@ use std::panic;
 include!("../../kani/specs.rs");
 mod ops;
 mod native;
+#[cfg(feature = "physics")]
+mod phys;
 
 fn main() {
     let args: Vec<String> = std::env::args().collect();
